@@ -31,7 +31,7 @@ func AddressFromPubKey(pubkey keypair.PublicKey) common.Address {
 func AddressFromMultiPubKeys(pubkeys []keypair.PublicKey, m int) (common.Address, error) {
 	sink := common.NewZeroCopySink(nil)
 	if err := EncodeMultiPubKeyProgramInto(sink, pubkeys, uint16(m)); err != nil {
-		return common.ADDRESS_EMPTY, err
+		return common.ADDRESS_EMPTY, nil
 	}
 	return common.AddressFromVmCode(sink.Bytes()), nil
 }
